@@ -2411,6 +2411,17 @@ pub fn compile<I: BufRead, O: Write>(
 
     let r = Cc2600Parser::parse(Rule::program, preprocessed_utf8);
     match r {
+        Err(e) if mapped_lines.is_empty() => {
+            // Nothing survived preprocessing (empty file, a single unterminated comment...):
+            // there is no line to map the error to
+            eprintln!("{}", e);
+            return Err(Error::Syntax {
+                filename: args.input.clone(),
+                included_in: None,
+                line: 1,
+                msg: e.variant.message().to_string(),
+            });
+        }
         Err(e) => {
             let mut ex = e.clone();
             let filename;
